@@ -14,7 +14,7 @@
     documents the defect of the pinned code. *)
 From Coq Require Import List NArith ZArith Bool String Lia.
 Import ListNotations.
-Require Import Aurora.C35.Model Aurora.C35.ProofsB64 Aurora.C35.ProofsPolicy Aurora.C35.Proofs.
+Require Import Aurora.C35.Model Aurora.C35.ProofsB64 Aurora.C35.ProofsPolicy Aurora.C35.Proofs Aurora.C35.ProofsConc.
 Local Open Scope Z_scope.
 
 (** "honoured only if issued with this node's key and not altered, not
@@ -129,6 +129,29 @@ Theorem C35_handler_sound :
     exists key, header = bearer ++ key /\ enforce K open_ dec_rec true k now key path method = Ok true.
 Proof. intros K open_ dec_rec k now header path method. apply handler_pass. Qed.
 Print Assumptions C35_handler_sound.
+
+(** purity under concurrency: a call is a thread whose steps (decode, decrypt,
+    unmarshal, test + policy) work on the call's own state only — the model has
+    no state shared between calls.  For ALL sets of concurrent Enforce /
+    RefreshKey calls and ALL schedules, a call that got its four steps holds
+    exactly the answer it gives when run alone, which is a function of
+    (key, token, clock reads, path, method[, nonce, duration]) ... *)
+Theorem C35_interleaving :
+  forall K seal open_ enc_rec dec_rec (k : K) (calls : list call) (sched : list nat) i c,
+    nth_error calls i = Some c -> (4 <= count_occ Nat.eq_dec sched i)%nat ->
+    nth_error (run_sched K seal open_ enc_rec dec_rec true k sched (map TStart calls)) i =
+    Some (TDone (answer_of K seal open_ enc_rec dec_rec true k c)).
+Proof. intros K seal open_ enc_rec dec_rec k calls sched i c. apply interleaving. Qed.
+Print Assumptions C35_interleaving.
+
+(** ... and whatever answer a call holds under any schedule, complete or not, is that one *)
+Theorem C35_finished_is_sequential :
+  forall K seal open_ enc_rec dec_rec (k : K) (calls : list call) (sched : list nat) i c a,
+    nth_error calls i = Some c ->
+    nth_error (run_sched K seal open_ enc_rec dec_rec true k sched (map TStart calls)) i = Some (TDone a) ->
+    a = answer_of K seal open_ enc_rec dec_rec true k c.
+Proof. intros K seal open_ enc_rec dec_rec k calls sched i c a. apply finished_is_sequential. Qed.
+Print Assumptions C35_finished_is_sequential.
 
 (** F-auth-short-token, on the model of the PINNED code ([checked = false]):
     the 4-character token "AAAA" (3 bytes after base64) panics in Enforce and
